@@ -24,8 +24,8 @@ from jpsim.runner import simpler_json
 
 PROPERTY = "C12"
 BUDGET = {
-    "quick": {"history": 60000},
-    "thorough": {"history": 1500000},
+    "quick": {"history": 300000},
+    "thorough": {"history": 5000000},
 }
 FAULT_KINDS = ["negcount"]
 TIME_UNIT = "logical steps (one chained operation or one next() on a live handle); the component has no clock"
